@@ -4,7 +4,7 @@
 cd "$(dirname "$0")/.."
 export SEED_TIER=${1:-quick}
 ok=0; bad=0
-for d in seeded/*/; do
+for d in seeded/${2:-*}/; do
   sid=$(basename "$d")
   read -r dest run checks < <(python3 - "$d/meta.json" <<'P'
 import json,sys
